@@ -1,6 +1,7 @@
 import FV.Props.C12
 import FV.Props.C15
 import FV.FlexEdit
+import FV.FlexLen
 /-! # C12 — when exactly is a `push` accepted -/
 namespace FV.Props
 open FV
@@ -127,4 +128,18 @@ theorem C12_truncate_noop (it : Ty) (l : LenTy) (hl : l.Law) (n : Nat) (data : S
 
 /-- non-vacuity: item 0 of the two-item `FlexVec<FlatVec<u8,u8>, u8>` `[[7], [8,9]]` occupies bytes 1..4 -/
 example : flexItemRange L8 1 9 0 0 ⟨0, [4, 1, 7, 0, 255, 2, 8, 9]⟩ = .ok (some (1, 3)) := by decide
+
+/-- **`len()` and `is_empty()` report the abstract sequence.** On every valid encoding — a chain of `items`, closed by the `MAX`
+marker or by a terminating slot — `len()` does not panic (it unwraps every step of the iterator) and returns the number of items,
+and `is_empty()` holds exactly when there is none. (`push_default` is `push` with the item type's default initialiser and `clear` is
+`truncate(0)`: `C12_push`, `C12_truncate`.) -/
+theorem C12_len_is_empty (it : Ty) (h : it.WF) (l : LenTy) (hl : l.Law) (data : Slice) (items : List (Nat × Bytes))
+    (hc : Chain it.dict l (max l.size it.dict.align) 0 data items) :
+    flexLen it l (max l.size it.dict.align) (items.length + 1) data = .ok items.length ∧
+      flexIsEmpty it l data = .ok items.isEmpty :=
+  ⟨flexLen_spec it l (Ty.law it h) hl hc _ (Nat.lt_succ_self _), flexIsEmpty_spec it l (Ty.law it h) hl hc⟩
+
+/-- non-vacuity: a `FlexVec<u8, u8>` holding `[7]` (slot `ff`, item `07`) and an empty one -/
+example : flexLen u8 ⟨1, 1, false⟩ 1 2 ⟨0, [255, 7]⟩ = .ok 1 ∧ flexIsEmpty u8 ⟨1, 1, false⟩ ⟨0, [255, 7]⟩ = .ok false ∧
+    flexIsEmpty u8 ⟨1, 1, false⟩ ⟨0, [0, 7]⟩ = .ok true := by decide
 end FV.Props
